@@ -50,12 +50,12 @@ func runC05() *RunResult {
 			case 1:
 				t.ops = append(t.ops, &Op{Kind: opAppend, Arg: rn(8)})
 			case 2:
-				t.ops = append(t.ops, &Op{Kind: opRetrieve, Path: up, Cfg: ucfg, Doc: udoc, Faults: drawFaults(up.UsesFuncs)})
+				t.ops = append(t.ops, &Op{Kind: opRetrieve, Path: up, Cfg: ucfg, Doc: udoc, Faults: drawFaults(up.UsesFuncs), Panics: drawPanics(up.UsesFuncs)})
 			case 3:
 				t.ops = append(t.ops, &Op{Kind: opParse, Path: up, Cfg: ucfg, Slot: 1})
 				t.ops = append(t.ops, &Op{Kind: opCall, Slot: 1, Doc: udoc, Path: up, Cfg: ucfg})
 			}
-			t.ops = append(t.ops, &Op{Kind: opCall, Slot: 0, Doc: rn(nd), Path: p, Cfg: cfg, Faults: drawFaults(p.UsesFuncs)})
+			t.ops = append(t.ops, &Op{Kind: opCall, Slot: 0, Doc: rn(nd), Path: p, Cfg: cfg, Faults: drawFaults(p.UsesFuncs), Panics: drawPanics(p.UsesFuncs)})
 		}
 		w.tasks = append(w.tasks, t)
 		cases = append(cases, fnv(p.Text+"|"+cfg.String()+"|"+t.docs[0].Snap))
